@@ -272,7 +272,8 @@ Section Lint.
   (* ---------------------------------------------------------------------------------------------- *)
   (* the per-line quote tracker shared by L007 and L010: None = outside, Some q = inside a literal opened by q *)
 
-  Definition is_quote (c : ch) : bool := (cp c =? 39) || (cp c =? 34).
+  (* single quote 39, double quote 34 (string literals, quoted identifiers) and back quote 96 (back-quoted identifiers) *)
+  Definition is_quote (c : ch) : bool := (cp c =? 39) || (cp c =? 34) || (cp c =? 96).
 
   (* ---------------------------------------------------------------------------------------------- *)
   (* L010 redundant whitespace *)
